@@ -391,6 +391,14 @@ func (c *HostClient) Do(ctx context.Context, req *protocol.Request, resp *protoc
 	// a body given as a stream is consumed and detached by the first attempt to write
 	// the request (IsBodyStream is false afterwards): it cannot be sent a second time
 	hadBodyStream := req.IsBodyStream()
+	// ... and so are multipart parts given as readers (a custom RetryIfFunc is not
+	// asked about what cannot be sent again)
+	for _, f := range req.MultipartFiles() {
+		hadBodyStream = hadBodyStream || f.Reader != nil
+	}
+	for _, f := range req.MultipartFields() {
+		hadBodyStream = hadBodyStream || f.Reader != nil
+	}
 
 	atomic.AddInt32(&c.pendingRequests, 1)
 	req.Options().StartRequest()
